@@ -74,6 +74,14 @@ def run(check, an: Analysis):
                    'ext:threading.local' in handler_cls.mro, where_fn(
                        an.method(HANDLER, '__init__')),
                    'MRO of the state handle class: %s' % handler_cls.mro)
+    # attributes kept in slots live in the object, not in the per-thread dictionary of a
+    # threading.local: they would be one value shared by all threads
+    slotted = [(entry, _slot_names(an.p.classes[entry])) for entry in handler_cls.mro
+               if entry in an.p.classes and _slot_names(an.p.classes[entry])]
+    check.instance('X', 'StateHandler:per-thread-attributes', not slotted,
+                   where_fn(an.method(HANDLER, '__init__')),
+                   'no class of the state handle declares slots for its attributes: %s'
+                   % (slotted or 'none'))
     module = an.p.modules[HANDLER_MOD]
     values = module.assigns.get('__USIM_STATE__', [])
     ok = len(values) == 1 and isinstance(values[0][0], ast.Call) and \
